@@ -102,6 +102,18 @@ class C03(Spec):
         if rng.random() < 0.1:
             u = "http://" + w.canary() + "/x"
             w.fetch(u)
+        if rng.random() < 0.2:
+            # a webfinger lookup (tolerated types jrd+json / json, same cache): sometimes the same URL is also fetched as a document
+            import c04
+            before = len(w.entries)
+            c04.SPEC.webfinger_op(rng, w, rng.randrange(3))
+            if len(w.entries) > before and rng.random() < 0.4:
+                wf = w.universe[w.entries[before][0]]
+                if rng.random() < 0.5:
+                    w.ops.insert(len(w.ops) - 1, ("fetch", w.u(wf)))
+                else:
+                    w.fetch(wf)
+                w.ops.append(w.ops[-2] if w.ops[-2][0] == "webfinger" else w.ops[-1])
         chain = max([len(urls) - 1 if kind >= 0.45 else 0])
         w.meta["chain"] = chain
         return w
